@@ -303,6 +303,10 @@ func (h Header) Copy() Header {
 	header := make(Header, h.Len())
 	for i := range h {
 		header[i] = h[i]
+		if h[i].Aliases != nil {
+			header[i].Aliases = make([]string, len(h[i].Aliases))
+			copy(header[i].Aliases, h[i].Aliases)
+		}
 	}
 	return header
 }
